@@ -1,6 +1,9 @@
 package an
 
 import (
+	"go/token"
+	"go/types"
+
 	"golang.org/x/tools/go/ssa"
 )
 
@@ -89,4 +92,93 @@ func guardedNonNil(v ssa.Value, at *ssa.BasicBlock) bool {
 		}
 	}
 	return false
+}
+
+// ErrDeref is a dereference of a call's pointer (or interface) result at a place that can only be reached when
+// the error result of that same call is non-nil: by the convention every (T, error) function of the standard
+// library and of this repository follows, T is nil there.
+type ErrDeref struct {
+	Fn    *ssa.Function
+	Call  *ssa.Call
+	Use   ssa.Instruction
+	What  string
+	Index int
+}
+
+// ErrPathDerefs examines every call in fns that returns (…, error) with a pointer- or interface-typed result
+// and returns the number of such result pairs and the dereferences of the result on the error-only side.
+func ErrPathDerefs(fns []*ssa.Function) (pairs int, sites []ErrDeref) {
+	for _, fn := range fns {
+		for _, b := range fn.Blocks {
+			for _, in := range b.Instrs {
+				call, ok := in.(*ssa.Call)
+				if !ok {
+					continue
+				}
+				tup, ok := call.Type().(*types.Tuple)
+				if !ok || tup.Len() < 2 || !isErrorType(tup.At(tup.Len()-1).Type()) {
+					continue
+				}
+				var errV ssa.Value
+				res := map[int]*ssa.Extract{}
+				for _, r := range *call.Referrers() {
+					if e, ok := r.(*ssa.Extract); ok {
+						if e.Index == tup.Len()-1 {
+							errV = e
+						} else {
+							res[e.Index] = e
+						}
+					}
+				}
+				for i := 0; i < tup.Len()-1; i++ {
+					_, isPtr := tup.At(i).Type().Underlying().(*types.Pointer)
+					_, isIface := tup.At(i).Type().Underlying().(*types.Interface)
+					if !isPtr && !isIface {
+						continue
+					}
+					pairs++
+					v := res[i]
+					if v == nil || errV == nil {
+						continue
+					}
+					for _, u := range *v.Referrers() {
+						what := ""
+						switch x := u.(type) {
+						case *ssa.FieldAddr:
+							if x.X == ssa.Value(v) {
+								what = "field access"
+							}
+						case *ssa.UnOp:
+							if x.Op == token.MUL && x.X == ssa.Value(v) {
+								what = "load through the pointer"
+							}
+						case *ssa.IndexAddr:
+							if x.X == ssa.Value(v) {
+								what = "element access"
+							}
+						case ssa.CallInstruction:
+							cc := x.Common()
+							if cc.IsInvoke() && cc.Value == ssa.Value(v) {
+								what = "method call " + cc.Method.Name() + " on the interface"
+							} else if f := cc.StaticCallee(); f != nil && f.Signature.Recv() != nil && len(cc.Args) > 0 && cc.Args[0] == ssa.Value(v) {
+								what = "method call " + f.Name() + " on the pointer"
+							}
+						}
+						if what == "" {
+							continue
+						}
+						if guardedNonNil(errV, u.Block()) {
+							sites = append(sites, ErrDeref{Fn: fn, Call: call, Use: u, What: what, Index: i})
+						}
+					}
+				}
+			}
+		}
+	}
+	return
+}
+
+func isErrorType(t types.Type) bool {
+	n, ok := t.(*types.Named)
+	return ok && n.Obj().Pkg() == nil && n.Obj().Name() == "error"
 }
